@@ -72,6 +72,10 @@ pub struct Cfg {
     /// on the same thread); the cache under test must not notice
     #[serde(default)]
     pub decoy: bool,
+    /// the callbacks call back into the cache they belong to (get_ttl of the value's key): a
+    /// callback must never run while the library holds a lock the callback may need
+    #[serde(default)]
+    pub reentrant_cb: bool,
 }
 
 #[derive(Serialize, Deserialize, Clone, Debug, PartialEq)]
